@@ -177,9 +177,9 @@ impl<'a> Exec<'a> {
         let mut outs: Vec<(SlotId, StepOut)> = vec![];
         if do_mask {
             for &g in &group {
-                let (failed, stopped) = {
+                let (failed, stopped, uncertain) = {
                     let s = &self.slots[&g];
-                    (s.failed.is_some(), s.c_stopped)
+                    (s.failed.is_some(), s.c_stopped, s.ops_since_fault > 0)
                 };
                 let r = match self.ch(g) {
                     Some(c) => c.compute_mask(nv),
@@ -188,6 +188,9 @@ impl<'a> Exec<'a> {
                 self.stats.masks += 1;
                 match r {
                     Ok(o) => {
+                        // after a rejected call a Rust constraint is either still usable or failed;
+                        // a successful mask says "usable" (ChkText then holds it to the fresh engine)
+                        self.slots.get_mut(&g).unwrap().ops_since_fault = 0;
                         if failed {
                             return Err(self.viol(
                                 "sticky_failure",
@@ -240,11 +243,18 @@ impl<'a> Exec<'a> {
                         outs.push((g, o));
                     }
                     Err(e) => {
-                        let legal = !failed && !stopped;
+                        let legal = !failed && !stopped && !uncertain;
                         if stopped && !failed {
                             self.stats.fault("call_after_stop");
                         }
                         self.on_constraint_err(g, "cmask", &e.to_string(), legal)?;
+                        if uncertain {
+                            // the earlier rejected call left the engine failed: from now on sticky
+                            let s = self.slots.get_mut(&g).unwrap();
+                            if s.failed.is_none() {
+                                s.failed = Some(e.to_string());
+                            }
+                        }
                     }
                 }
             }
@@ -301,11 +311,20 @@ impl<'a> Exec<'a> {
             match r {
                 Ok(o) => {
                     if failed {
-                        return Err(self.viol(
-                            "sticky_failure",
-                            "commit_after_failure",
-                            format!("h{g} had failed but commit_token succeeded"),
-                        ));
+                        // C handles drop the constraint on any error: every later call must fail.
+                        // A Rust Constraint keeps its last step result; commit_token without a
+                        // successful compute_mask re-reports it (tolerated out-of-order call, see
+                        // DESIGN.md C18) - compute_mask is what must keep failing.
+                        let is_c = matches!(self.slots[&g].h, H::C(CH::C(_)));
+                        if is_c {
+                            return Err(self.viol(
+                                "sticky_failure",
+                                "commit_after_failure",
+                                format!("h{g} had failed but commit_token succeeded"),
+                            ));
+                        }
+                        self.ev(format!("ccommit h{g} after-failure (re-reports last result)"));
+                        continue;
                     }
                     if stopped {
                         // commit after stop: only allowed to keep reporting the stop
@@ -392,11 +411,18 @@ impl<'a> Exec<'a> {
                 Err(e) => {
                     let legal = honest && !failed && !stopped;
                     self.on_constraint_err(g, "ccommit", &e.to_string(), legal)?;
-                    // a rejected token leaves a Rust constraint's parser stopped with an error;
-                    // treat the handle as failed for the rest of the run
+                    // a rejected call leaves a C handle failed (it drops the constraint); a Rust
+                    // constraint is either still usable or failed - the next compute_mask tells
                     let s = self.slots.get_mut(&g).unwrap();
-                    if s.failed.is_none() {
-                        s.failed = Some(e.to_string());
+                    let is_c = matches!(s.h, H::C(CH::C(_)));
+                    if is_c {
+                        if s.failed.is_none() {
+                            s.failed = Some(e.to_string());
+                        }
+                    } else if s.failed.is_none() {
+                        s.ops_since_fault = 1;
+                        s.c_pending_mask = None;
+                        s.rejected_commit = true;
                     }
                 }
             }
@@ -420,15 +446,19 @@ impl<'a> Exec<'a> {
     pub fn chk_text(&mut self, h: SlotId) -> VResult<()> {
         let nv = self.ctx.n_vocab();
         let eos = self.ctx.world.eos();
-        let (hist, failed, stopped, pending) = match self.slots.get(&h) {
+        let (hist, failed, stopped, pending, rejected) = match self.slots.get(&h) {
             Some(s) if matches!(s.h, H::C(_)) => (
                 s.hist.clone(),
                 s.failed.is_some(),
                 s.c_stopped,
                 s.c_pending_mask.clone(),
+                s.rejected_commit,
             ),
             _ => return self.skip_c("no_slot"),
         };
+        // known finding F8: a Rust Constraint that rejected a token may have consumed part of its
+        // bytes and stays "usable"; violations after that point carry their own signature
+        let sfx = if rejected { ":after_rejected_commit" } else { "" };
         if failed {
             return self.skip_c("failed");
         }
@@ -458,7 +488,7 @@ impl<'a> Exec<'a> {
         if n_ok != bt.len() {
             return Err(self.viol(
                 "text_valid_prefix",
-                "assembled_text_rejected_by_bytes",
+                &format!("{}{sfx}", "assembled_text_rejected_by_bytes"),
                 format!(
                     "h{h}: assembled text {:?} is rejected by the byte replica at offset {n_ok}",
                     String::from_utf8_lossy(&bytes)
@@ -473,7 +503,7 @@ impl<'a> Exec<'a> {
             if !acc {
                 return Err(self.viol(
                     "stop_iff_complete",
-                    "stopped_on_incomplete_text",
+                    &format!("{}{sfx}", "stopped_on_incomplete_text"),
                     format!("h{h}: stop reported but {:?} is not a complete string of the grammar", String::from_utf8_lossy(&bytes)),
                 ));
             }
@@ -493,7 +523,7 @@ impl<'a> Exec<'a> {
                 if ext {
                     return Err(self.viol(
                         "stop_iff_complete",
-                        "stopped_but_extendable",
+                        &format!("{}{sfx}", "stopped_but_extendable"),
                         format!("h{h}: stop reported without EOS but {:?} can be extended", String::from_utf8_lossy(&bytes)),
                     ));
                 }
@@ -523,7 +553,7 @@ impl<'a> Exec<'a> {
             if r.is_stopped() {
                 return Err(self.viol(
                     "stop_iff_complete",
-                    "complete_but_not_stopped",
+                    &format!("{}{sfx}", "complete_but_not_stopped"),
                     format!("h{h}: a fresh matcher fed {:?} is stopped, the constraint returned a mask", hist),
                 ));
             }
@@ -532,7 +562,7 @@ impl<'a> Exec<'a> {
                     if let Some((t, ina)) = mask_diff(&pm, &rm) {
                         return Err(self.viol(
                             "fresh_equivalence",
-                            "differs_from_fresh:mask",
+                            &format!("{}{sfx}", "differs_from_fresh:mask"),
                             format!("h{h} after {:?}: token {t} constraint={ina} fresh={}", hist, !ina),
                         ));
                     }
@@ -541,7 +571,7 @@ impl<'a> Exec<'a> {
                     if self.fault_free() {
                         return Err(self.viol(
                             "fresh_equivalence",
-                            "differs_from_fresh:mask_result",
+                            &format!("{}{sfx}", "differs_from_fresh:mask_result"),
                             format!("fresh matcher mask failed: {}", short(&e.to_string())),
                         ));
                     }
@@ -905,6 +935,7 @@ impl<'a> Exec<'a> {
             c_stopped: false,
             c_ff: false,
             ops_since_fault: 0,
+            rejected_commit: false,
         };
         self.slots.insert(h, slot);
         self.ev(format!("stop_new h{h} c={via_c}"));
@@ -945,6 +976,7 @@ impl<'a> Exec<'a> {
             c_stopped: false,
             c_ff: false,
             ops_since_fault: 0,
+            rejected_commit: false,
         };
         self.slots.insert(dst, slot);
         self.stats.probe("stop_controller_cloned");
